@@ -1,55 +1,1232 @@
+// Harness for C19: runs /repo's counter style code (css/counters, with the
+// @counter-style rules installed through real CSS text so that
+// css/validation/descriptors.go is in the loop) and the counter scoping of
+// html/boxes (BuildFormattingStructure) on generated inputs, and writes one
+// case per run as a Coq term of type Check.C19.case.
 package main
 
 import (
+	"bufio"
+	"encoding/json"
+	"flag"
 	"fmt"
+	"os"
+	"path/filepath"
+	"sort"
+	"strings"
 
+	"verifharness/vlib"
 	"verifharness/vlib/render"
 
 	"github.com/benoitkugler/webrender/css/counters"
 	pr "github.com/benoitkugler/webrender/css/properties"
+	bo "github.com/benoitkugler/webrender/html/boxes"
 	"github.com/benoitkugler/webrender/html/tree"
 	"github.com/benoitkugler/webrender/utils"
+	"golang.org/x/net/html"
 )
 
-func table(css string) counters.CounterStyle {
-	html, err := tree.NewHTML(utils.InputString("<style>"+css+"</style><p>"), "http://x/", nil, "")
+// ------------------------------------------------------------------ descriptor records (mirror of Css/Counters.v)
+
+type nsI struct {
+	kind int // 0: Name "", 1: Name "string", 2: other
+	s    string
+}
+
+type addI struct {
+	w int
+	s nsI
+}
+
+type descrI struct {
+	neg0, neg1, prefix, suffix nsI
+	fallback                   string
+	ext                        bool
+	sys                        string
+	number                     int
+	padInt                     int
+	padSym                     nsI
+	symbols                    []nsI
+	additive                   []addI
+	ranges                     [][2]int
+	auto                       bool
+}
+
+func nsOf(v pr.NamedString) nsI {
+	switch v.Name {
+	case "":
+		return nsI{0, v.String}
+	case "string":
+		return nsI{1, v.String}
+	}
+	return nsI{2, v.String}
+}
+
+func str1(s string) nsI { return nsI{1, s} }
+
+func fromGo(d counters.CounterStyleDescriptors) descrI {
+	out := descrI{
+		neg0: nsOf(d.Negative[0]), neg1: nsOf(d.Negative[1]), prefix: nsOf(d.Prefix), suffix: nsOf(d.Suffix),
+		fallback: d.Fallback, ext: d.System.Extends != "", sys: d.System.System, number: d.System.Number,
+		padInt: d.Pad.Int, padSym: nsOf(d.Pad.NamedString), auto: d.Range.Auto,
+	}
+	for _, s := range d.Symbols {
+		out.symbols = append(out.symbols, nsOf(s))
+	}
+	for _, s := range d.AdditiveSymbols {
+		out.additive = append(out.additive, addI{s.Int, nsOf(s.NamedString)})
+	}
+	out.ranges = append(out.ranges, d.Range.Ranges...)
+	return out
+}
+
+func coqNS(n nsI) string { return fmt.Sprintf("(NS %d %s)", n.kind, vlib.Runes(n.s)) }
+
+func (d descrI) coq() string {
+	var syms, adds, rgs []string
+	for _, s := range d.symbols {
+		syms = append(syms, coqNS(s))
+	}
+	for _, a := range d.additive {
+		adds = append(adds, fmt.Sprintf("Ad %s %s", vlib.Z(a.w), coqNS(a.s)))
+	}
+	for _, r := range d.ranges {
+		rgs = append(rgs, fmt.Sprintf("Rg %s %s", vlib.Z(r[0]), vlib.Z(r[1])))
+	}
+	return fmt.Sprintf("(Descr %s %s %s %s %s (Sys %s %s %s) %s %s %s %s %s %s)",
+		coqNS(d.neg0), coqNS(d.neg1), coqNS(d.prefix), coqNS(d.suffix), vlib.Runes(d.fallback),
+		vlib.Bool(d.ext), vlib.Runes(d.sys), vlib.Z(d.number), vlib.Z(d.padInt), coqNS(d.padSym),
+		vlib.List(syms), vlib.List(adds), vlib.List(rgs), vlib.Bool(d.auto))
+}
+
+func (d descrI) String() string {
+	return fmt.Sprintf("%+v", struct {
+		Neg0, Neg1, Prefix, Suffix nsI
+		Fallback                   string
+		Ext                        bool
+		Sys                        string
+		Number, PadInt             int
+		PadSym                     nsI
+		Symbols                    []nsI
+		Additive                   []addI
+		Ranges                     [][2]int
+		Auto                       bool
+	}{d.neg0, d.neg1, d.prefix, d.suffix, d.fallback, d.ext, d.sys, d.number, d.padInt, d.padSym, d.symbols, d.additive, d.ranges, d.auto})
+}
+
+func coqSid(id pr.CounterStyleID) string {
+	switch id.Type {
+	case "string":
+		return fmt.Sprintf("(SidString %s)", vlib.Runes(id.Name))
+	case "symbols()":
+		var args []string
+		for _, a := range id.Symbols {
+			args = append(args, vlib.Runes(a))
+		}
+		return fmt.Sprintf("(SidSymbols %s %s)", vlib.Runes(id.Name), vlib.List(args))
+	}
+	return fmt.Sprintf("(SidName %s)", vlib.Runes(id.Name))
+}
+
+func descSid(id pr.CounterStyleID) string {
+	switch id.Type {
+	case "string":
+		return fmt.Sprintf("%q", id.Name)
+	case "symbols()":
+		return fmt.Sprintf("symbols(%s %q)", id.Name, []string(id.Symbols))
+	}
+	return id.Name
+}
+
+// names of the styles the rendering of `roots` can look at: closure through
+// extends and fallback, plus decimal.
+func reachable(cs counters.CounterStyle, roots ...string) []string {
+	seen := map[string]bool{}
+	var todo []string
+	add := func(n string) {
+		if !seen[n] {
+			seen[n] = true
+			todo = append(todo, n)
+		}
+	}
+	add("decimal")
+	for _, r := range roots {
+		add(r)
+	}
+	for len(todo) > 0 {
+		n := todo[len(todo)-1]
+		todo = todo[:len(todo)-1]
+		d, ok := cs[n]
+		if !ok {
+			continue
+		}
+		if d.System.Extends != "" {
+			add(d.System.System)
+		}
+		if d.Fallback != "" {
+			add(d.Fallback)
+		}
+	}
+	var out []string
+	for n := range seen {
+		if _, ok := cs[n]; ok {
+			out = append(out, n)
+		}
+	}
+	sort.Strings(out)
+	return out
+}
+
+func coqTable(cs counters.CounterStyle, names []string) string {
+	var l []string
+	for _, n := range names {
+		l = append(l, fmt.Sprintf("En %s %s", vlib.Runes(n), fromGo(cs[n]).coq()))
+	}
+	return vlib.List(l)
+}
+
+// may a value of large magnitude produce a very long string (symbolic /
+// additive with an unbounded range)?  Such values are not run (the
+// implementation would allocate value/weight symbols).
+func bigOK(cs counters.CounterStyle, names []string) bool {
+	repeater := func(d counters.CounterStyleDescriptors) bool {
+		if d.System.Extends != "" {
+			return false
+		}
+		return d.System == (counters.CounterStyleSystem{}) || d.System.System == "symbolic" || d.System.System == "additive"
+	}
+	bounded := func(d counters.CounterStyleDescriptors) bool {
+		for _, r := range d.Range.Ranges {
+			if r[1] > 20000 || r[0] < -20000 {
+				return false
+			}
+		}
+		return true
+	}
+	has := false
+	for _, n := range names {
+		has = has || repeater(cs[n])
+	}
+	if !has {
+		return true
+	}
+	for _, n := range names {
+		d := cs[n]
+		switch {
+		case repeater(d):
+			if d.Range.Auto || d.Range.IsNone() || !bounded(d) {
+				return false
+			}
+		case d.System.Extends != "":
+			if d.Range.Auto || !bounded(d) {
+				return false
+			}
+		}
+	}
+	return true
+}
+
+// ------------------------------------------------------------------ installing styles through CSS text
+
+type parsed struct {
+	cs       counters.CounterStyle
+	root     *utils.HTMLNode
+	styleFor *tree.StyleFor
+	doc      *tree.HTML
+}
+
+func parseDoc(htmlText string) parsed {
+	doc, err := tree.NewHTML(utils.InputString(htmlText), "http://verif.test/", nil, "")
 	if err != nil {
 		panic(err)
 	}
-	html.UAStyleSheet = tree.TestUAStylesheet
+	doc.UAStyleSheet = tree.TestUAStylesheet
 	cs := make(counters.CounterStyle)
-	tree.GetAllComputedStyles(html, nil, false, nil, cs, nil, nil, false, nil)
-	return cs
+	sf := tree.GetAllComputedStyles(doc, nil, false, nil, cs, nil, nil, false, nil)
+	return parsed{cs: cs, root: doc.Root, styleFor: sf, doc: doc}
 }
 
-func try(cs counters.CounterStyle, name string, v int) {
-	var s string
-	o := render.Guard(func() { s = cs.RenderValue(v, name) })
-	fmt.Printf("%s(%d) = %q %v\n", name, v, s, o)
+func tableOf(css string) counters.CounterStyle {
+	return parseDoc("<style>" + css + "</style><p>").cs
+}
+
+// ------------------------------------------------------------------ case writers
+
+const (
+	maxI32 = 1<<31 - 1
+	minI32 = -1 << 31
+)
+
+type valOut struct {
+	V     int    `json:"v"`
+	Out   string `json:"out"`
+	Panic string `json:"panic,omitempty"`
+}
+
+// runs one of the three entry points on every value
+func renderCase(w *vlib.Writer, kind string, cssText string, cs counters.CounterStyle, id pr.CounterStyleID, mode int, values []int, tags []string) {
+	var roots []string
+	if id.Type == "" {
+		roots = append(roots, id.Name)
+	}
+	names := reachable(cs, roots...)
+	var vos []string
+	var outs []valOut
+	nontrivial := false
+	for _, v := range values {
+		var s string
+		o := render.Guard(func() {
+			switch mode {
+			case 0:
+				if id.Type == "" {
+					s = cs.RenderValue(v, id.Name)
+				} else {
+					s = cs.RenderValueStyle(v, id)
+				}
+			case 1:
+				s = cs.RenderValueStyle(v, id)
+			default:
+				s = cs.RenderMarker(id, v)
+			}
+		})
+		if o.Status != "ok" {
+			vos = append(vos, fmt.Sprintf("VO %s IPanic", vlib.Z(v)))
+			outs = append(outs, valOut{V: v, Panic: o.Site + ": " + o.Msg})
+			tags = append(tags, "impl-panic")
+		} else {
+			vos = append(vos, fmt.Sprintf("VO %s (IStr %s)", vlib.Z(v), vlib.Runes(s)))
+			outs = append(outs, valOut{V: v, Out: s})
+			if s != fmt.Sprint(v) {
+				nontrivial = true
+			}
+		}
+	}
+	w.Add(vlib.Case{
+		Kind: kind,
+		Coq:  fmt.Sprintf("CRender %d %s %s %s", mode, coqTable(cs, names), coqSid(id), vlib.List(vos)),
+		Desc: map[string]interface{}{"css": cssText, "style": descSid(id), "entry": []string{"RenderValue", "RenderValueStyle", "RenderMarker"}[mode], "results": outs, "table": names},
+		Tags: dedup(tags), Nontrivial: nontrivial,
+	})
+}
+
+func dedup(l []string) []string {
+	seen := map[string]bool{}
+	var out []string
+	for _, s := range l {
+		if !seen[s] {
+			seen[s] = true
+			out = append(out, s)
+		}
+	}
+	sort.Strings(out)
+	return out
+}
+
+// boundaries of every range of the reachable styles
+func boundaryValues(cs counters.CounterStyle, names []string) []int {
+	vals := []int{0, -1, 1}
+	for _, n := range names {
+		d := cs[n]
+		for _, r := range d.Range.Ranges {
+			for _, b := range r {
+				if b > -(1<<62) && b < 1<<62 {
+					vals = append(vals, b-1, b, b+1)
+				}
+			}
+		}
+		if d.System.System == "fixed" {
+			vals = append(vals, d.System.Number-1, d.System.Number, d.System.Number+len(d.Symbols)-1, d.System.Number+len(d.Symbols))
+		}
+		for _, a := range d.AdditiveSymbols {
+			vals = append(vals, a.Int-1, a.Int, a.Int+1, 2*a.Int)
+		}
+		if L := len(d.Symbols); L > 0 {
+			vals = append(vals, L-1, L, L+1, L*L, L*L+L, L*L+L+1, -L, -L-1)
+		}
+	}
+	return vals
+}
+
+var bigValues = []int{maxI32, minI32, maxI32 - 1, minI32 + 1, maxI32 + 1, minI32 - 1, 1 << 24, -(1 << 24), 1<<53 + 1, 1<<62 + 12345, -(1<<62 + 999), 1<<63 - 1, -(1<<63 - 1), 1000000007}
+
+func uniqInts(l []int, limit func(int) bool) []int {
+	seen := map[int]bool{}
+	var out []int
+	for _, v := range l {
+		if !seen[v] && limit(v) {
+			seen[v] = true
+			out = append(out, v)
+		}
+	}
+	return out
+}
+
+// ------------------------------------------------------------------ generated @counter-style rules
+
+var symPool = []string{"a", "b", "c", "x", "y", "z", "0", "1", "2", "7", "*", "+", "-", "٠", "١", "٢", "〇", "一", "α", "é", "𝟘", "𝟙", "ab", "xyz", "†", "•", ""}
+
+func cssString(s string) string {
+	s = strings.ReplaceAll(s, `\`, `\\`)
+	s = strings.ReplaceAll(s, `"`, `\"`)
+	return `"` + s + `"`
+}
+
+func isIdent(s string) bool {
+	if s == "" {
+		return false
+	}
+	for i, r := range s {
+		if !(r >= 'a' && r <= 'z') && !(i > 0 && r >= '0' && r <= '9') {
+			return false
+		}
+	}
+	switch s {
+	case "auto", "infinite", "none", "extends":
+		return false
+	}
+	return true
+}
+
+func cssSym(r *vlib.Rng, s string) string {
+	if isIdent(s) && r.Chance(1, 3) {
+		return s
+	}
+	return cssString(s)
+}
+
+type ruleGen struct {
+	name     string
+	text     string
+	intended *descrI // nil: the rule must be rejected
+}
+
+var namePool = []string{"s0", "s1", "s2", "s3", "s4", "s5", "s6", "numeric", "cyclic", "symbolic", "fixed", "lower-roman", "my-style"}
+var targetPool = []string{"s0", "s1", "s2", "s3", "s4", "s5", "s6", "numeric", "cyclic", "decimal", "disc", "lower-roman", "upper-alpha", "nope", "cjk-decimal", "decimal-leading-zero", "hebrew"}
+
+func pickSyms(r *vlib.Rng, n int) []string {
+	out := make([]string, n)
+	for i := range out {
+		out[i] = vlib.Pick(r, symPool)
+	}
+	return out
+}
+
+func intText(r *vlib.Rng, v int) string {
+	if v >= 0 && r.Chance(1, 8) {
+		return fmt.Sprintf("+%d", v)
+	}
+	return fmt.Sprint(v)
+}
+
+// genRule writes one @counter-style rule as a list of declarations, most of
+// them valid; `intended` is the record the rule must be parsed to, computed
+// here from the grammar of css-counter-styles-3 (later declarations win,
+// invalid declarations are ignored as a whole).
+func genRule(r *vlib.Rng, name string, malformed bool) ruleGen {
+	var d descrI
+	var decls []string
+	bad := func() bool { return malformed && r.Chance(1, 4) }
+
+	// system
+	sysKind := r.Intn(9)
+	switch {
+	case r.Chance(1, 12): // no system descriptor: symbolic
+		sysKind = -1
+	case sysKind == 0:
+		decls = append(decls, "system: cyclic")
+		d.sys = "cyclic"
+	case sysKind == 1:
+		if r.Bool() {
+			decls = append(decls, "system: fixed")
+			d.sys, d.number = "fixed", 1
+		} else {
+			n := r.Range(-6, 12)
+			decls = append(decls, "system: fixed "+intText(r, n))
+			d.sys, d.number = "fixed", n
+		}
+	case sysKind == 2:
+		decls = append(decls, "system: symbolic")
+		d.sys = "symbolic"
+	case sysKind == 3:
+		decls = append(decls, "system: alphabetic")
+		d.sys = "alphabetic"
+	case sysKind == 4 || sysKind == 5:
+		decls = append(decls, "system: numeric")
+		d.sys = "numeric"
+	case sysKind == 6:
+		decls = append(decls, "system: additive")
+		d.sys = "additive"
+	default:
+		t := vlib.Pick(r, targetPool)
+		decls = append(decls, "system: extends "+t)
+		d.ext, d.sys = true, t
+	}
+	if bad() {
+		decls = append(decls, vlib.Pick(r, []string{"system: cyclic numeric", "system: fixed 1.5", "system: extends", "system: foo", "system: extends a b", "system: 3"}))
+	}
+
+	// symbols
+	if d.sys == "additive" && !d.ext {
+		n := r.Range(2, 6)
+		if r.Chance(1, 15) {
+			n = r.Range(0, 1)
+		}
+		w := r.Range(1, 60) * n
+		var parts []string
+		for i := 0; i < n; i++ {
+			s := vlib.Pick(r, symPool)
+			if r.Bool() {
+				parts = append(parts, fmt.Sprintf("%d %s", w, cssSym(r, s)))
+			} else {
+				parts = append(parts, fmt.Sprintf("%s %d", cssSym(r, s), w))
+			}
+			d.additive = append(d.additive, addI{w, str1(s)})
+			if i == n-2 && r.Chance(1, 3) {
+				w = 0
+			} else if i == n-2 && r.Chance(1, 2) {
+				w = 1
+			} else {
+				w = w - r.Range(1, max(1, w/2))
+			}
+			if w < 0 {
+				w = 0
+			}
+		}
+		// weights must be strictly decreasing: regenerate as invalid otherwise
+		okOrder := true
+		for i := 1; i < len(d.additive); i++ {
+			if d.additive[i-1].w <= d.additive[i].w {
+				okOrder = false
+			}
+		}
+		if n > 0 {
+			decls = append(decls, "additive-symbols: "+strings.Join(parts, ", "))
+		}
+		if !okOrder {
+			d.additive = nil
+		}
+		if bad() {
+			decls = append(decls, vlib.Pick(r, []string{"additive-symbols: 1 a, 2 b", "additive-symbols: 5 v, 5 w", "additive-symbols: 3 a, x", "additive-symbols: -1 a", "additive-symbols: 2 a,", "additive-symbols: 1.5 a"}))
+		}
+	} else if !d.ext || r.Chance(1, 10) {
+		n := r.Range(1, 6)
+		if r.Chance(1, 6) {
+			n = 10
+		}
+		if r.Chance(1, 15) {
+			n = 0
+		}
+		if n > 0 {
+			syms := pickSyms(r, n)
+			var parts []string
+			for _, s := range syms {
+				parts = append(parts, cssSym(r, s))
+				d.symbols = append(d.symbols, str1(s))
+			}
+			decls = append(decls, "symbols: "+strings.Join(parts, " "))
+			if r.Chance(1, 10) { // a second declaration replaces the first
+				syms := pickSyms(r, r.Range(1, 4))
+				parts, d.symbols = nil, nil
+				for _, s := range syms {
+					parts = append(parts, cssSym(r, s))
+					d.symbols = append(d.symbols, str1(s))
+				}
+				decls = append(decls, "symbols: "+strings.Join(parts, " "))
+			}
+		}
+		if bad() {
+			decls = append(decls, vlib.Pick(r, []string{"symbols: a 5 b", "symbols: ", "symbols: a, b", "symbols: 1"}))
+		}
+	}
+
+	// negative
+	if r.Chance(1, 3) {
+		a := vlib.Pick(r, []string{"-", "(", "−", "neg", "~", ""})
+		if r.Bool() {
+			decls = append(decls, "negative: "+cssSym(r, a))
+			d.neg0, d.neg1 = str1(a), str1("")
+		} else {
+			b := vlib.Pick(r, []string{")", "!", "", "𝟘"})
+			decls = append(decls, "negative: "+cssSym(r, a)+" "+cssSym(r, b))
+			d.neg0, d.neg1 = str1(a), str1(b)
+		}
+		if bad() {
+			decls = append(decls, vlib.Pick(r, []string{`negative: "a" "b" "c"`, "negative: 3", `negative: "a" 4`, "negative: "}))
+		}
+	}
+	// prefix / suffix
+	if r.Chance(1, 4) {
+		s := vlib.Pick(r, []string{"<", "§", "", "no"})
+		decls = append(decls, "prefix: "+cssSym(r, s))
+		d.prefix = str1(s)
+	}
+	if r.Chance(1, 3) {
+		s := vlib.Pick(r, []string{")", ": ", "", "、", " "})
+		decls = append(decls, "suffix: "+cssSym(r, s))
+		d.suffix = str1(s)
+		if bad() {
+			decls = append(decls, vlib.Pick(r, []string{`suffix: "a" "b"`, "suffix: 2", "prefix: 1 2"}))
+		}
+	}
+	// range
+	if r.Chance(1, 2) {
+		if r.Chance(1, 5) {
+			decls = append(decls, "range: auto")
+			d.auto, d.ranges = true, nil
+		} else {
+			n := r.Range(1, 3)
+			var parts []string
+			var rs [][2]int
+			for i := 0; i < n; i++ {
+				lo := r.Range(-15, 30)
+				hi := lo + r.Range(0, 25)
+				ls, hs := intText(r, lo), intText(r, hi)
+				if r.Chance(1, 8) {
+					lo, ls = -1<<63, "infinite"
+				}
+				if r.Chance(1, 6) {
+					hi, hs = 1<<63-1, "infinite"
+				}
+				if r.Chance(1, 12) {
+					hi, hs = r.Range(500, 40000), ""
+					if hi < lo {
+						hi = lo
+					}
+					hs = fmt.Sprint(hi)
+				}
+				parts = append(parts, ls+" "+hs)
+				rs = append(rs, [2]int{lo, hi})
+			}
+			decls = append(decls, "range: "+strings.Join(parts, ", "))
+			d.auto, d.ranges = false, rs
+		}
+		if bad() {
+			decls = append(decls, vlib.Pick(r, []string{"range: 3 1", "range: 1 2, 5 4", "range: 1", "range: 1 2 3", "range: a b", "range: 1.5 2", "range: auto, 1 2", "range: 1 2,"}))
+		}
+	}
+	// pad
+	if r.Chance(1, 3) {
+		n := r.Range(0, 9)
+		s := vlib.Pick(r, []string{"0", "_", "٠", "ab", "", "𝟘"})
+		if r.Bool() {
+			decls = append(decls, fmt.Sprintf("pad: %s %s", intText(r, n), cssSym(r, s)))
+		} else {
+			decls = append(decls, fmt.Sprintf("pad: %s %s", cssSym(r, s), intText(r, n)))
+		}
+		d.padInt, d.padSym = n, str1(s)
+		if bad() {
+			decls = append(decls, vlib.Pick(r, []string{`pad: -1 "x"`, `pad: 2`, `pad: "x"`, `pad: 2.5 "x"`, `pad: 1 2`, `pad: 1 "a" "b"`}))
+		}
+	}
+	// fallback
+	if r.Chance(1, 2) {
+		t := vlib.Pick(r, targetPool)
+		decls = append(decls, "fallback: "+t)
+		d.fallback = t
+		if bad() {
+			decls = append(decls, vlib.Pick(r, []string{"fallback: none", "fallback: a b", "fallback: 3", `fallback: "x"`}))
+		}
+	}
+
+	// order of declarations does not matter between different descriptors:
+	// shuffle while keeping the relative order of the same descriptor
+	// (a stable partition by random key per descriptor name)
+	keys := map[string]int{}
+	for _, dcl := range decls {
+		n := dcl[:strings.Index(dcl, ":")]
+		if _, ok := keys[n]; !ok {
+			keys[n] = r.Intn(1000)
+		}
+	}
+	sort.SliceStable(decls, func(i, j int) bool {
+		return keys[decls[i][:strings.Index(decls[i], ":")]] < keys[decls[j][:strings.Index(decls[j], ":")]]
+	})
+
+	var sb strings.Builder
+	fmt.Fprintf(&sb, "@counter-style %s {", name)
+	for _, dcl := range decls {
+		sb.WriteString(" " + dcl + ";")
+	}
+	sb.WriteString(" }")
+
+	// validity of the whole rule (css-counter-styles-3 3.1)
+	valid := true
+	sys := d.sys
+	if !d.ext && sys == "" {
+		sys = "symbolic"
+	}
+	switch {
+	case d.ext:
+		valid = len(d.symbols) == 0 && len(d.additive) == 0
+	case sys == "cyclic" || sys == "fixed" || sys == "symbolic":
+		valid = len(d.symbols) >= 1
+	case sys == "alphabetic" || sys == "numeric":
+		valid = len(d.symbols) >= 2
+	case sys == "additive":
+		valid = len(d.additive) >= 2
+	}
+	out := ruleGen{name: name, text: sb.String()}
+	if valid {
+		out.intended = &d
+	}
+	return out
+}
+
+func max(a, b int) int {
+	if a > b {
+		return a
+	}
+	return b
+}
+
+// a set of rules with distinct names
+func genRuleSet(r *vlib.Rng, malformed bool) ([]ruleGen, string) {
+	n := r.Range(1, 6)
+	names := append([]string{}, namePool...)
+	var rules []ruleGen
+	var sb strings.Builder
+	for i := 0; i < n; i++ {
+		k := r.Intn(len(names))
+		if r.Chance(2, 3) { // prefer the sN names, so that targets hit
+			k = r.Intn(7 - i)
+		}
+		name := names[k]
+		names = append(names[:k], names[k+1:]...)
+		rule := genRule(r, name, malformed)
+		rules = append(rules, rule)
+		sb.WriteString(rule.text + "\n")
+	}
+	return rules, sb.String()
+}
+
+// ------------------------------------------------------------------ documents
+
+type cint struct {
+	name string
+	v    int
+}
+
+func coqCints(l pr.IntStrings) string {
+	var out []string
+	for _, x := range l {
+		out = append(out, fmt.Sprintf("CI %s %s", vlib.Runes(x.String), vlib.Z(x.Int)))
+	}
+	return vlib.List(out)
+}
+
+func coqProps(style pr.ElementStyle) string {
+	inc := style.GetCounterIncrement()
+	return fmt.Sprintf("(CP %s %s %s %s %s)", coqCints(style.GetCounterReset().Values), coqCints(style.GetCounterSet().Values),
+		vlib.Bool(inc.String == "auto"), coqCints(inc.Values), vlib.Bool(style.GetDisplay().Has("list-item")))
+}
+
+type docDump struct {
+	styles      map[string]bool // counter style names used
+	unsupported string
+}
+
+func (dd *docDump) items(cl pr.ContentProperties) string {
+	var out []string
+	for _, c := range cl {
+		switch c.Type {
+		case "string":
+			out = append(out, "CString "+vlib.Runes(c.AsString()))
+		case "counter()":
+			n, st := c.AsCounter()
+			dd.use(st)
+			out = append(out, fmt.Sprintf("CCounter %s %s", vlib.Runes(n), coqSid(st)))
+		case "counters()":
+			n, sep, st := c.AsCounters()
+			dd.use(st)
+			out = append(out, fmt.Sprintf("CCounters %s %s %s", vlib.Runes(n), vlib.Runes(sep), coqSid(st)))
+		default:
+			dd.unsupported = "content item " + c.Type
+		}
+	}
+	return vlib.List(out)
+}
+
+func (dd *docDump) use(st pr.CounterStyleID) {
+	if st.Type == "" {
+		dd.styles[st.Name] = true
+	}
+}
+
+func (dd *docDump) pseudo(sf *tree.StyleFor, el *utils.HTMLNode, which string) string {
+	style := sf.Get(el, which)
+	if style == nil {
+		return "None"
+	}
+	content := style.GetContent()
+	if style.GetDisplay() == (pr.Display{"none"}) || content.String == "none" || content.String == "normal" || content.String == "inhibit" {
+		return "None"
+	}
+	if style.GetDisplay().Has("list-item") {
+		dd.unsupported = "list-item pseudo-element"
+	}
+	return fmt.Sprintf("(Some (Pseudo %s %s))", coqProps(style), dd.items(content.Contents))
+}
+
+func (dd *docDump) elem(sf *tree.StyleFor, el *utils.HTMLNode) string {
+	style := sf.Get(el, "")
+	if style == nil {
+		dd.unsupported = "element without style"
+		return ""
+	}
+	skip := style.GetDisplay() == (pr.Display{"none"})
+	if style.GetFloat() == "footnote" {
+		dd.unsupported = "footnote"
+	}
+	mk := "MkNone"
+	if !skip && style.GetDisplay().Has("list-item") {
+		ms := sf.Get(el, "marker")
+		switch {
+		case ms == nil:
+			dd.unsupported = "marker without style"
+		case ms.GetDisplay() == (pr.Display{"none"}):
+		case ms.GetContent().String != "normal" && ms.GetContent().String != "inhibit":
+			mk = fmt.Sprintf("(MkContent %s)", dd.items(ms.GetContent().Contents))
+		default:
+			if _, isURL := ms.GetListStyleImage().(pr.UrlImage); isURL {
+				dd.unsupported = "list-style-image"
+			}
+			if lst := ms.GetListStyleType(); lst.Name != "none" {
+				dd.use(lst)
+				mk = fmt.Sprintf("(MkNormal %s)", coqSid(lst))
+			}
+		}
+	}
+	var kids []string
+	if !skip {
+		for _, ch := range el.NodeChildren(false) {
+			if ch.Type == html.ElementNode {
+				kids = append(kids, dd.elem(sf, ch))
+			}
+		}
+	}
+	before, after := "None", "None"
+	if !skip {
+		before, after = dd.pseudo(sf, el, "before"), dd.pseudo(sf, el, "after")
+	}
+	return fmt.Sprintf("(Elem %s %s %s %s %s %s)", vlib.Bool(skip), coqProps(style), mk, before, after, vlib.List(kids))
+}
+
+type obs struct {
+	Kind string `json:"kind"`
+	Text string `json:"text"`
+}
+
+func docCase(w *vlib.Writer, kind, htmlText string, tags []string) {
+	var p parsed
+	var observed []obs
+	var coqObs []string
+	dd := &docDump{styles: map[string]bool{}}
+	var root string
+	o := render.Guard(func() {
+		p = parseDoc(htmlText)
+		root = dd.elem(p.styleFor, p.root)
+	})
+	if o.Status != "ok" {
+		// the style computation itself failed: not this property's code
+		return
+	}
+	if dd.unsupported != "" {
+		return
+	}
+	o = render.Guard(func() {
+		tc := tree.NewTargetCollector()
+		box := bo.BuildFormattingStructure(p.root, p.styleFor, bo.URLResolver{}, "http://verif.test/", &tc, p.cs, new([]bo.Box))
+		render.Walk(box, func(b bo.Box, depth int) {
+			tb, ok := b.(*bo.TextBox)
+			if !ok {
+				return
+			}
+			var c string
+			switch tb.PseudoType {
+			case "marker":
+				c = "OMarker"
+			case "before":
+				c = "OBefore"
+			case "after":
+				c = "OAfter"
+			default:
+				return
+			}
+			observed = append(observed, obs{tb.PseudoType, string(tb.Text)})
+			coqObs = append(coqObs, fmt.Sprintf("%s %s", c, vlib.Runes(string(tb.Text))))
+		})
+	})
+	var used []string
+	for n := range dd.styles {
+		used = append(used, n)
+	}
+	names := reachable(p.cs, used...)
+	desc := map[string]interface{}{"html": htmlText, "observed": observed}
+	if o.Status != "ok" {
+		desc["panic"] = o.Site + ": " + o.Msg
+		tags = append(tags, "impl-panic")
+	}
+	w.Add(vlib.Case{
+		Kind: kind,
+		Coq:  fmt.Sprintf("CDoc %s %s %s %s", coqTable(p.cs, names), root, vlib.Bool(o.Status != "ok"), vlib.List(coqObs)),
+		Desc: desc, Tags: dedup(tags), Nontrivial: len(observed) > 1,
+	})
+}
+
+var counterNames = []string{"a", "b", "c", "list-item"}
+var docStyles = []string{"decimal", "lower-roman", "upper-alpha", "decimal-leading-zero", "disc", "lower-greek", "hebrew", "cjk-decimal", "georgian", "s0", "s1", "s2"}
+
+func genCints(r *vlib.Rng, withValues bool) string {
+	n := r.Range(1, 2)
+	var parts []string
+	for i := 0; i < n; i++ {
+		name := vlib.Pick(r, counterNames)
+		if r.Chance(1, 10) {
+			name = "a"
+		}
+		if withValues && r.Chance(2, 3) {
+			v := r.Range(-4, 12)
+			if r.Chance(1, 25) {
+				v = vlib.Pick(r, []int{1 << 24, -(1 << 24), 2147483647, -2147483648, 3999, 4000})
+			}
+			parts = append(parts, fmt.Sprintf("%s %d", name, v))
+		} else {
+			parts = append(parts, name)
+		}
+	}
+	return strings.Join(parts, " ")
+}
+
+func genContent(r *vlib.Rng, big bool) string {
+	style := func() string {
+		switch {
+		case r.Chance(1, 2):
+			return ""
+		case r.Chance(1, 10):
+			return ", " + cssString(vlib.Pick(r, []string{"*", "§", "none"}))
+		case r.Chance(1, 8):
+			return ", symbols(" + vlib.Pick(r, []string{"cyclic", "numeric", "alphabetic", "symbolic", "fixed", ""}) + ` "x" "y" "z")`
+		case r.Chance(1, 20):
+			return ", none"
+		}
+		return ", " + vlib.Pick(r, docStyles)
+	}
+	var parts []string
+	parts = append(parts, `"["`)
+	n := r.Range(1, 2)
+	for i := 0; i < n; i++ {
+		if i > 0 {
+			parts = append(parts, `"|"`)
+		}
+		name := vlib.Pick(r, counterNames)
+		if r.Bool() {
+			parts = append(parts, fmt.Sprintf("counters(%s, %s%s)", name, cssString(vlib.Pick(r, []string{".", "-", "", "::"})), style()))
+		} else {
+			parts = append(parts, fmt.Sprintf("counter(%s%s)", name, style()))
+		}
+	}
+	parts = append(parts, `"]"`)
+	return strings.Join(parts, " ")
+}
+
+func genDoc(r *vlib.Rng) string {
+	var sb strings.Builder
+	sb.WriteString("<style>\n")
+	if r.Chance(1, 2) {
+		rules, text := genRuleSet(r, false)
+		_ = rules
+		sb.WriteString(text)
+	}
+	// classes
+	nr := r.Range(2, 4)
+	for i := 0; i < nr; i++ {
+		fmt.Fprintf(&sb, ".r%d { counter-reset: %s }\n", i, genCints(r, true))
+	}
+	for i := 0; i < 2; i++ {
+		fmt.Fprintf(&sb, ".s%d { counter-set: %s }\n", i, genCints(r, true))
+	}
+	for i := 0; i < 3; i++ {
+		if r.Chance(1, 8) {
+			fmt.Fprintf(&sb, ".i%d { counter-increment: none }\n", i)
+		} else {
+			fmt.Fprintf(&sb, ".i%d { counter-increment: %s }\n", i, genCints(r, true))
+		}
+	}
+	sb.WriteString(".n { display: none }\n.li { display: list-item }\n.bl { display: block }\n.il { display: inline }\n")
+	for i := 0; i < 3; i++ {
+		extra := ""
+		if r.Chance(1, 4) {
+			extra = "counter-increment: " + genCints(r, true) + "; "
+		} else if r.Chance(1, 6) {
+			extra = "counter-reset: " + genCints(r, true) + "; "
+		} else if r.Chance(1, 10) {
+			extra = "counter-set: " + genCints(r, true) + "; "
+		}
+		fmt.Fprintf(&sb, ".b%d::before { %scontent: %s }\n", i, extra, genContent(r, false))
+	}
+	for i := 0; i < 2; i++ {
+		extra := ""
+		if r.Chance(1, 4) {
+			extra = "counter-increment: " + genCints(r, true) + "; "
+		}
+		fmt.Fprintf(&sb, ".a%d::after { %scontent: %s }\n", i, extra, genContent(r, false))
+	}
+	if r.Chance(1, 5) {
+		fmt.Fprintf(&sb, "li::marker { content: %s }\n", genContent(r, false))
+	}
+	if r.Chance(1, 4) {
+		fmt.Fprintf(&sb, "ol { list-style-type: %s }\n", vlib.Pick(r, append([]string{`"→"`, `symbols(cyclic "◆" "◇")`, "none"}, docStyles...)))
+	}
+	if r.Chance(1, 6) {
+		sb.WriteString("li { list-style-position: inside }\n")
+	}
+	sb.WriteString("</style>\n<body>")
+	budget := r.Range(4, 28)
+	var gen func(depth int, inList bool)
+	gen = func(depth int, inList bool) {
+		for budget > 0 && (depth == 0 || !r.Chance(1, 4)) {
+			budget--
+			tag := vlib.Pick(r, []string{"div", "div", "p", "span", "ol", "ul", "li", "li", "section"})
+			if inList && r.Chance(2, 3) {
+				tag = "li"
+			}
+			var cls []string
+			for _, c := range []struct {
+				p    string
+				n    int
+				odds int
+			}{{"r", nr, 6}, {"s", 2, 12}, {"i", 3, 4}, {"b", 3, 2}, {"a", 2, 5}} {
+				if r.Chance(1, c.odds) {
+					cls = append(cls, fmt.Sprintf("%s%d", c.p, r.Intn(c.n)))
+				}
+			}
+			if depth > 0 && r.Chance(1, 14) {
+				cls = append(cls, "n")
+			} else if r.Chance(1, 10) {
+				cls = append(cls, vlib.Pick(r, []string{"li", "bl", "il"}))
+			}
+			attr := ""
+			if len(cls) > 0 {
+				attr = fmt.Sprintf(` class="%s"`, strings.Join(cls, " "))
+			}
+			if r.Chance(1, 10) {
+				attr += fmt.Sprintf(` style="counter-reset: %s"`, genCints(r, true))
+			}
+			fmt.Fprintf(&sb, "<%s%s>", tag, attr)
+			if r.Chance(1, 3) {
+				sb.WriteString("t")
+			}
+			if depth < 5 && tag != "span" {
+				gen(depth+1, tag == "ol" || tag == "ul")
+			}
+			fmt.Fprintf(&sb, "</%s>", tag)
+		}
+	}
+	gen(0, false)
+	sb.WriteString("</body>")
+	return sb.String()
+}
+
+// ------------------------------------------------------------------ corpus
+
+type corpusEntry struct {
+	Kind   string `json:"kind"` // "render" | "doc"
+	CSS    string `json:"css"`
+	Style  string `json:"style"`
+	Mode   int    `json:"mode"`
+	Values []int  `json:"values"`
+	HTML   string `json:"html"`
+	Note   string `json:"note"`
+}
+
+func runCorpus(w *vlib.Writer) {
+	files, _ := filepath.Glob("/verif/corpus/C19/*.case")
+	sort.Strings(files)
+	for _, f := range files {
+		fd, err := os.Open(f)
+		if err != nil {
+			continue
+		}
+		sc := bufio.NewScanner(fd)
+		sc.Buffer(make([]byte, 1<<20), 1<<24)
+		for sc.Scan() {
+			line := strings.TrimSpace(sc.Text())
+			if line == "" || strings.HasPrefix(line, "#") {
+				continue
+			}
+			var e corpusEntry
+			if err := json.Unmarshal([]byte(line), &e); err != nil {
+				panic(fmt.Sprintf("%s: %v", f, err))
+			}
+			tags := []string{"corpus", "corpus:" + filepath.Base(f)}
+			switch e.Kind {
+			case "render":
+				cs := tableOf(e.CSS)
+				renderCase(w, "corpus-render", e.CSS, cs, pr.CounterStyleID{Name: e.Style}, e.Mode, e.Values, tags)
+			case "doc":
+				docCase(w, "corpus-doc", e.HTML, tags)
+			}
+		}
+		fd.Close()
+	}
+}
+
+// ------------------------------------------------------------------ main
+
+func rangeInts(lo, hi int) []int {
+	var out []int
+	for i := lo; i <= hi; i++ {
+		out = append(out, i)
+	}
+	return out
 }
 
 func main() {
-	_ = pr.NamedString{}
-	cs := table(`
-@counter-style cyc { system: cyclic; symbols: a b c }
-@counter-style add0 { system: additive; additive-symbols: 5 v, 2 ii, 0 z }
-@counter-style padu { system: numeric; symbols: '٠' '١'; pad: 3 '٠' }
-@counter-style numeric { system: cyclic; symbols: x; range: 1 1; fallback: b }
-@counter-style a { system: cyclic; symbols: y; range: 1 1; fallback: numeric }
-@counter-style b { system: numeric; symbols: '0' '1' }
-@counter-style e1 { system: extends nonexist; pad: 3 "0" }
-@counter-style c1 { system: extends c2; }
-@counter-style c2 { system: extends c3; pad: 4 "x" }
-@counter-style c3 { system: extends c1; }
-@counter-style zz { system: cyclic; symbols: z; range: 1 1; fallback: yy }
-@counter-style yy { system: cyclic; symbols: y; range: 1 1; fallback: bb }
-@counter-style bb { system: extends aa; range: auto }
-@counter-style aa { system: extends yy; }
-@counter-style sy { system: symbolic; symbols: a b; range: -5 5 }
-@counter-style al { system: alphabetic; symbols: a b; range: -5 5 }
-@counter-style ad { system: additive; additive-symbols: 5 v, 2 ii; range: -10 10 }
-`)
-	fmt.Println(len(cs))
-	for _, n := range []string{"cyc","add0","padu","a","e1","c1","c2","zz","bb","sy","al","ad", "lower-roman", "decimal"} {
-	for _, v := range []int{-3, 0, 1,2,3, 7, 2147483648, -9223372036854775808} { try(cs, n, v) } }
+	out := flag.String("out", "cases.jsonl", "output file")
+	n := flag.Int("n", 1000, "number of cases")
+	flag.Parse()
+	rng := vlib.NewRng(vlib.Seed())
+	w := vlib.NewWriter(*out)
+	defer w.Close()
+
+	runCorpus(w)
+
+	// (a1) every predefined style: boundaries + big values, then a slice of [-300, 3000]
+	ua := tableOf("")
+	var uaNames []string
+	for k := range ua {
+		uaNames = append(uaNames, k)
+	}
+	sort.Strings(uaNames)
+	noLimit := func(int) bool { return true }
+	for _, name := range uaNames {
+		names := reachable(ua, name)
+		vals := boundaryValues(ua, names)
+		if bigOK(ua, names) {
+			vals = append(vals, bigValues...)
+		}
+		id := pr.CounterStyleID{Name: name}
+		renderCase(w, "ua-boundary", "", ua, id, 0, uniqInts(vals, noLimit), []string{"ua"})
+		renderCase(w, "ua-marker", "", ua, id, 2, uniqInts(append([]int{0, 1, 2, 10, -3, 4000}, vals[:6]...), noLimit), []string{"ua", "marker"})
+	}
+	// all of [-300, 3000] for a rotating subset of the predefined styles (all of them in the thorough tier)
+	full := 6
+	if os.Getenv("VERIF_TIER") == "thorough" {
+		full = len(uaNames)
+	}
+	start := rng.Intn(len(uaNames))
+	always := []string{"decimal", "lower-roman", "upper-alpha", "hebrew"}
+	var fullNames []string
+	fullNames = append(fullNames, always...)
+	for i := 0; i < full; i++ {
+		fullNames = append(fullNames, uaNames[(start+i)%len(uaNames)])
+	}
+	for _, name := range dedupKeep(fullNames) {
+		for lo := -300; lo <= 3000; lo += 150 {
+			hi := lo + 149
+			if hi > 3000 {
+				hi = 3000
+			}
+			renderCase(w, "ua-interval", "", ua, pr.CounterStyleID{Name: name}, 0, rangeInts(lo, hi), []string{"ua", "interval"})
+		}
+	}
+
+	// generated streams
+	for w.N() < *n {
+		r := rng.Fork()
+		switch k := r.Intn(20); {
+		case k < 8: // (a2) generated rule sets, rendering
+			malformed := r.Chance(1, 4)
+			rules, text := genRuleSet(r, malformed)
+			cs := tableOf(text)
+			for _, rule := range rules {
+				if _, ok := cs[rule.name]; !ok && r.Chance(2, 3) {
+					continue
+				}
+				names := reachable(cs, rule.name)
+				vals := append(rangeInts(-14, 34), boundaryValues(cs, names)...)
+				if bigOK(cs, names) {
+					vals = append(vals, bigValues...)
+				}
+				lim := func(v int) bool { return bigOK(cs, names) || (v >= -6000 && v <= 6000) }
+				mode := 0
+				tags := []string{"gen"}
+				if r.Chance(1, 5) {
+					mode = 2
+					tags = append(tags, "marker")
+				}
+				if malformed {
+					tags = append(tags, "malformed")
+				}
+				for _, nm := range names {
+					d := cs[nm]
+					if d.System.Extends != "" {
+						tags = append(tags, "extends")
+					}
+					if d.Fallback != "" {
+						tags = append(tags, "fallback")
+					}
+					tags = append(tags, "system:"+d.System.System)
+				}
+				renderCase(w, "gen-render", text, cs, pr.CounterStyleID{Name: rule.name}, mode, uniqInts(vals, lim), tags)
+			}
+		case k < 10: // (a3) symbols() / string styles, unknown names
+			var id pr.CounterStyleID
+			switch r.Intn(4) {
+			case 0:
+				id = pr.CounterStyleID{Type: "string", Name: vlib.Pick(r, symPool)}
+			case 1:
+				id = pr.CounterStyleID{Name: vlib.Pick(r, []string{"nope", "none", "", "decimal"})}
+			default:
+				id = pr.CounterStyleID{Type: "symbols()", Name: vlib.Pick(r, []string{"cyclic", "numeric", "alphabetic", "symbolic", "fixed", "additive", "bogus"}), Symbols: pickSyms(r, r.Range(0, 4))}
+			}
+			vals := append(rangeInts(-8, 20), 100, -100, 1000)
+			if id.Name != "symbolic" {
+				vals = append(vals, bigValues...)
+			}
+			renderCase(w, "fn-render", "", ua, id, 1+r.Intn(2), uniqInts(vals, noLimit), []string{"fn", "type:" + id.Type})
+		case k < 14: // descriptor parsing: intended record vs parsed record
+			malformed := r.Chance(1, 2)
+			rules, text := genRuleSet(r, malformed)
+			cs := tableOf(text)
+			for _, rule := range rules {
+				got, ok := cs[rule.name]
+				if _, isUA := ua[rule.name]; isUA && !ok {
+					continue
+				}
+				var gotS, wantS, gotD, wantD string
+				gotS, wantS, gotD, wantD = "None", "None", "rejected", "rejected"
+				if ok {
+					if _, isUA := ua[rule.name]; isUA && rule.intended == nil {
+						continue // the UA definition stays
+					}
+					gotS, gotD = "(Some "+fromGo(got).coq()+")", fromGo(got).String()
+				}
+				if rule.intended != nil {
+					wantS, wantD = "(Some "+rule.intended.coq()+")", rule.intended.String()
+				}
+				tags := []string{"parse"}
+				if malformed {
+					tags = append(tags, "malformed")
+				}
+				w.Add(vlib.Case{Kind: "parse", Coq: fmt.Sprintf("CParse %s %s", wantS, gotS),
+					Desc: map[string]interface{}{"rule": rule.text, "intended": wantD, "parsed": gotD},
+					Tags: tags, Nontrivial: true})
+			}
+		default: // (b) documents
+			docCase(w, "doc", genDoc(r), []string{"doc"})
+		}
+	}
+}
+
+func dedupKeep(l []string) []string {
+	seen := map[string]bool{}
+	var out []string
+	for _, s := range l {
+		if !seen[s] {
+			seen[s] = true
+			out = append(out, s)
+		}
+	}
+	return out
 }
